@@ -130,7 +130,10 @@ def programs(draw, opts=None):
             kind = draw(st.sampled_from(kinds))
             if kind == "var":
                 vi = draw(st.sampled_from([vi for vi, v in enumerate(prog["vars"]) if v["mod"] == here_mod or (attr_vars and v["mod"] < here_mod)]))
-                body.append(["var", vi] if prog["vars"][vi]["mod"] == here_mod else ["var", vi, "modattr"])
+                if prog["vars"][vi]["mod"] != here_mod:
+                    body.append(["var", vi, "modattr"])
+                else:
+                    body.append(["var", vi, "method"] if draw(st.integers(0, 3)) == 0 else ["var", vi])
             elif kind == "ext":
                 body.append(["ext", draw(st.integers(0, 2))])
             elif kind == "call":
